@@ -66,6 +66,9 @@ macro_rules! dispatch {
                 .map(|b| json!({"data": serde_json::from_slice::<Value>(b.as_slice()).unwrap_or(Value::Null)}))
                 .map_err(|e| format!("{:?}", e)),
             "reply" => dispatch!(@reply $krate, $deps, $env, $msg, $has_reply),
+            "migrate" => $krate::contract::migrate($deps.as_mut(), $env.clone(), from_json($msg).map_err(|e| format!("ParseMsg({e})"))?)
+                .map(|r| serde_json::to_value(&r).unwrap())
+                .map_err(|e| format!("{:?}", e)),
             other => Err(format!("unknown entry {other}")),
         }
     }};
